@@ -968,6 +968,37 @@ def rule_r12(repo, run, T):
     run.floor(R, "format-scope flags", n, 5)
 
 
+def rule_r13(repo, run, T):
+    R = run.rule("C05.R13", "conditional-compilation guards of a declaration are opened and closed the same number of "
+                            "times under the same test")
+    n = 0
+    for mn in ("wrapc", "wrapf", "wrapp", "wrapl"):
+        m = repo.module(mn)
+        for q, fn in sorted(m.functions().items()):
+            groups = {}
+            for c in ast.walk(fn):
+                if isinstance(c, ast.Call) and isinstance(c.func, ast.Attribute) and c.func.attr == "append" and c.args:
+                    t = str(m.seg(c.args[0]))
+                    kind = None
+                    if re.match(r"^'#' \+ .*cpp_if", t):
+                        kind = 0
+                    elif t.startswith("'#endif"):
+                        kind = 1
+                    if kind is None:
+                        continue
+                    tests = [str(m.seg(tt)) for tt, pol in pyflow.dominating_tests(c, stop=fn) if pol and "cpp_if" in str(m.seg(tt))]
+                    if not tests:
+                        continue            # include guards and the like: not tied to a declaration's cpp_if
+                    groups.setdefault(tests[-1], [0, 0])[kind] += 1
+            for g, (o, cl) in sorted(groups.items()):
+                n += 1
+                run.check(R, "%s.%s:if %s" % (mn, q, g), o == cl,
+                          "under `if %s` the guard is opened %d time(s) and closed %d time(s): the generated file has an "
+                          "unterminated or dangling preprocessor conditional" % (g, o, cl), m.loc(fn),
+                          sample=dict(function=q, test=g, opens=o, closes=cl))
+    run.floor(R, "guarded open/close groups", n, 10)
+
+
 def run(repo, run, tier):
     tables.check_model_assumptions(repo)
     T = dict(
@@ -989,6 +1020,7 @@ def run(repo, run, tier):
     rule_r10(repo, run, T)
     rule_r11(repo, run, T)
     rule_r12(repo, run, T)
+    rule_r13(repo, run, T)
     run.assumptions.extend([
         "field universe is an over-approximation (any attribute store / Scope keyword in the emitter's "
         "modules defines the field): a report means no assignment exists at all",
